@@ -9,6 +9,19 @@ import DosModel.Proofs.PipeWitness
 namespace Dos.Props.C14
 open Dos Dos.Pipe Dos.Gen.Pipes
 
+/-- the scenarios below really are scenarios of the REGENERATED pipelines: every goroutine, channel
+and data decision they name exists there (otherwise `Wit.scOf` would be the empty scenario and
+`repaired_scenarios_end_clean` vacuous; a rename in /repo breaks THIS theorem) -/
+theorem repaired_scenarios_resolve :
+    Wit.resolves helper_dosnode_mergeErrors (Wit.faninSpec "dosnode.mergeErrors" "dosnode.mergeErrors.out") = true ∧
+    Wit.resolves query_sys Wit.recoverSpec = true ∧ Wit.resolves query_sys Wit.dispatchSpec = true ∧
+    Wit.resolves grouping Wit.askSpec = true := by decide +kernel
+
+/-- …and they are not trivial: the explorations visit more than the initial state -/
+theorem repaired_scenarios_explored :
+    10 ≤ ((Wit.scOf helper_dosnode_mergeErrors (Wit.faninSpec "dosnode.mergeErrors" "dosnode.mergeErrors.out")).reachSet 400).length ∧
+    10 ≤ ((Wit.scOf query_sys Wit.recoverSpec).reachSet 400).length := by decide +kernel
+
 /-- on the repaired tree the same scenarios end with everything closed and nothing left: every
 state of the exploration in which nothing can move has no goroutine of the code under test left -/
 theorem repaired_scenarios_end_clean :
